@@ -18,7 +18,7 @@ func init() {
 			"an old file that is still in use is renamed to its temporary name before it is handed to the deferred remover, so a crash leaves no replaced file under a loadable name; NOT decided: data races on non-mutex state, that every acknowledged point is returned (schedule-dependent values).",
 		Assumptions: append([]string{"locks are identified by the canonical receiver path of the Lock/RLock call inside one function; aliases through the heap are not followed"}, commonAssumptions...),
 		Technique:   "static analysis: must-hold lockset dataflow on the correlated-branch product of go/cfg, control-dependence guards, post-dominance pairing, lock-order graph",
-		Rules:       "C04.R1 R2 R3 R4 R5(thorough)",
+		Rules:       "C04.R1 R2 R3 R4 R6 R5(thorough)",
 	}
 }
 
@@ -275,6 +275,81 @@ func c04(c *an.Ctx) {
 					if p := f.FPath(f.G.Vs[cl.List[0].V].Succ, f.G.Exit, map[int]bool{deferV: true}, nil); p != nil {
 						r.Fail(f.Name+": exit before release registered", c.P.Pos(cl.List[0].Node.Pos()), "an exit is reachable between cloneReaders and the registration of the release closure; path (lines): %s", f.DescribePath(p))
 					}
+				}
+			}
+		}
+	}
+	// ---------------------------------------------------------------- R6
+	{
+		// Memtables are recycled through a pool.  A query decides from MsInfo.flushed whether the snapshot
+		// table's rows are already in files; a recycled table whose per-measurement slots keep state of
+		// their previous life (flushed == true) is dropped from the view while its rows are in no file yet.
+		// Rule: MemTable.Reset hands out fresh slots (make), or — if slots are reused — a reset method of
+		// MsInfo assigns EVERY field (the lock excepted).
+		const MU = "engine/mutable"
+		r := c.Rule("C04.R6", "K-FIELDCOV", MU+":(*MemTable).Reset — per-measurement slots of a recycled memtable start from the zero state (fresh slice, or a reset that covers every field)")
+		slots := obj(r, MU+":MemTable.msInfos")
+		if f := fn(r, MU+":MemTable.Reset"); f != nil && !r.Failed() {
+			stores := f.Find(an.MStore("t.msInfos = …", slots, nil))
+			r.AddSites(stores.Len())
+			reused := stores.Len() == 0
+			for _, s := range stores.List {
+				as, ok := s.Node.(*ast.AssignStmt)
+				if !ok || len(as.Rhs) != 1 {
+					reused = true
+					continue
+				}
+				ce, isCall := ast.Unparen(as.Rhs[0]).(*ast.CallExpr)
+				if id, isId := (func() (*ast.Ident, bool) {
+					if !isCall {
+						return nil, false
+					}
+					id, ok := ce.Fun.(*ast.Ident)
+					return id, ok
+				})(); !isCall || !isId || id.Name != "make" {
+					reused = true
+				}
+			}
+			if reused {
+				T, _ := c.P.Obj(MU + ":MsInfo").(*types.TypeName)
+				covered := false
+				if T != nil {
+					named := T.Type().(*types.Named)
+					st := named.Underlying().(*types.Struct)
+					for i := 0; i < named.NumMethods(); i++ {
+						m := named.Method(i)
+						if !strings.HasPrefix(strings.ToLower(m.Name()), "reset") {
+							continue
+						}
+						src := c.P.Src(m)
+						if src == nil {
+							continue
+						}
+						g := c.P.Fn(src)
+						if g == nil || g.Recv == nil {
+							continue
+						}
+						written := c.P.FieldsWritten(g, g.Recv, 2, map[*types.Func]bool{})
+						var missing []string
+						for k := 0; k < st.NumFields(); k++ {
+							fld := st.Field(k)
+							if fld.Name() == "mu" {
+								continue
+							}
+							if len(written[fld]) == 0 {
+								missing = append(missing, fld.Name())
+							}
+						}
+						if len(missing) == 0 {
+							covered = true
+						} else {
+							r.Fail("MsInfo."+m.Name()+": fields not reset", c.P.Pos(src.Decl.Pos()), "MemTable.Reset re-uses the per-measurement slots and MsInfo.%s leaves %v as they were: a recycled table starts with the state of its previous life (a stale flushed flag hides unflushed rows from queries)", m.Name(), missing)
+							covered = true // reported
+						}
+					}
+				}
+				if !covered {
+					r.Fail(f.Name+": slots reused without reset", c.P.Pos(f.Body.Pos()), "MemTable.Reset keeps the per-measurement slots (no fresh make) and MsInfo has no reset method that clears them")
 				}
 			}
 		}
